@@ -247,15 +247,31 @@ def norm_ops(s, sort=False):
 
 
 def h1(ctx):
-    rc, lines = ctx.run_bin("h_mup", "", args=["h1", str(ctx.seed)], timeout=600)
-    res = {}
+    """Asynchronous persister: every subset of the pending writes completed, then crash + recovery."""
+    rc, lines = ctx.run_bin("h_mup", "", args=["h1", str(ctx.seed)], timeout=900)
+    res = []
+    panic = None
     for l in rlines(lines):
-        m = re.match(r"h1 scenario=(\S+) .*reported_persisted=(\[.*?\]) durable=\[(.*?)\] recovery=(\S+)", l)
+        m = re.match(r"h1 maxp=(\d+) mask=(\d+) pending=(\d+) completed=\[(.*?)\] reported=\[(.*?)\] stored_id=(\d+) expect_id=(\d+) recovery=(\S+) eq=(\d)", l)
         if m:
-            res[m.group(1)] = {"reported": m.group(2), "durable": m.group(3), "recovery": m.group(4), "line": l}
+            res.append({"maxp": int(m.group(1)), "mask": int(m.group(2)), "completed": m.group(4), "reported": [int(x) for x in m.group(5).split(",") if x.strip()],
+                        "stored_id": int(m.group(6)), "expect_id": int(m.group(7)), "recovery": m.group(8), "eq": m.group(9) == "1", "line": l})
         elif l.startswith("harness-panic"):
-            res["harness-panic"] = l
-    return rc, res
+            panic = l
+    return rc, res, panic
+
+
+def judge_h1(r):
+    if not r["recovery"].startswith("OK:"):
+        return "recovery failed: " + r["recovery"][:160]
+    rid = int(r["recovery"][3:])
+    if r["reported"] and rid < max(r["reported"]):
+        return "recovered id %d is older than update %d reported persisted" % (rid, max(r["reported"]))
+    if rid != r["expect_id"]:
+        return "recovered id %d, stored monitor + consecutive durable updates give %d" % (rid, r["expect_id"])
+    if not r["eq"]:
+        return "recovered monitor differs from the in-memory monitor as of update %d" % rid
+    return None
 
 
 def run(ctx):
@@ -416,14 +432,15 @@ def run(ctx):
                 pr.append("h_fsstore mt exited %d" % rc)
             for p in pr[:2]:
                 problems.append(("fs-mt", p, {"cmd": "h_fsstore mt %s %d %d %d %d <dir>" % (ver, seed, threads, per, nkeys), "history": hist[:400]}))
-    # ---- 4. H1
-    rc, h = h1(ctx)
-    cov["h1"] = h
-    if "out-of-order" not in h or "in-order" not in h:
-        problems.append(("h1", "h_mup h1 did not produce both scenarios: %s" % (h.get("harness-panic") or "rc=%d" % rc), {}))
-    else:
-        if not h["in-order"]["recovery"].startswith("OK:"):
-            problems.append(("h1", "async persister, updates durable IN ORDER, recovery failed: " + h["in-order"]["recovery"], {"line": h["in-order"]["line"]}))
+    # ---- 4. H1: asynchronous persister, all completion subsets
+    rc, h, hp = h1(ctx)
+    h1_bad = [(r, judge_h1(r)) for r in h]
+    h1_bad = [(r, p) for r, p in h1_bad if p]
+    cov["h1_patterns"] = len(h)
+    cov["h1_failures"] = len(h1_bad)
+    cov["h1_sample"] = [r["line"] for r in h[:3]]
+    if len(h) < 32 or hp:
+        problems.append(("h1", "h_mup h1 did not produce all completion patterns: %s" % (hp or "rc=%d, %d lines" % (rc, len(h))), {}))
     # ---- coverage
     nrec = sum(int(o["summary"].get("recovered_equal", 0)) + int(o["summary"].get("recovered_other_tip", 0)) + int(o["summary"].get("before_first_persist", 0))
                for _, _, rc2, o in mups if o["summary"])
@@ -441,7 +458,7 @@ def run(ctx):
     ctx.coverage.update(cov)
     for mp, s, _, o in mups[:2]:
         ctx.samples.append({"maximum_pending_updates": mp, "calls": (o["calls"] or [])[:12], "ops": (o["ops"] or [])[:12], "summary": o["summary"]})
-    ctx.samples.append({"h1": h})
+    ctx.samples.append({"h1": [r["line"] for r in h[:4]]})
     # ---- decide
     broken = []
     if not proved:
@@ -458,11 +475,11 @@ def run(ctx):
         body = {"broken": broken, "topic": topic, "problem": desc}
         body.update(rep)
         ctx.violation("C19 fails on the implementation: " + desc[:300], body, True)
-    h_oo = h.get("out-of-order")
-    if h_oo and not h_oo["recovery"].startswith("OK:"):
-        ctx.violation("C19 (H1): asynchronous persister, update n+1 durable before update n, crash: recovery " + h_oo["recovery"][:200],
-                      {"history": "real ChannelMonitor (update_id 0) + updates 1,2 via ChainMonitor::new_async_beta over an async KVStore; writes of update 1 and 2 both in flight; only the write of update 2 completed; nothing reported persisted (%s); crash; read_all_channel_monitors_with_updates" % h_oo["reported"],
-                       "durable_keys": h_oo["durable"], "observed": h_oo["line"], "model": "Props/C19.v C19_mup_async_refuted",
+    if h1_bad:
+        r, pr = sorted(h1_bad, key=lambda x: (len(x[0]["completed"]), x[0]["mask"]))[0]
+        ctx.violation("C19 (H1): asynchronous persister, writes durable out of order, crash: " + pr,
+                      {"history": "real ChannelMonitor (update_id 0) + updates 1..4 via ChainMonitor::new_async_beta (maximum_pending_updates=%d) over an asynchronous KVStore; all writes in flight; completed only [%s] (same-key order respected); reported persisted: %s; crash; read_all_channel_monitors_with_updates" % (r["maxp"], r["completed"], r["reported"]),
+                       "observed": r["line"], "failing_patterns": len(h1_bad), "of": len(h), "model": "Props/C19.v C19_mup_async, C19_ex_async_gap",
                        "replay_cmd": "%s h1 %d" % (ctx.bin_path("h_mup"), ctx.seed)}, True, key=KEY_H1)
     if broken and not problems:
         what = "proof" if not proved else "correspondence"
@@ -473,11 +490,13 @@ def run(ctx):
 
 def replay(ctx, rep):
     print(json.dumps({k: v for k, v in rep.items() if k != "history"}, indent=1)[:6000])
-    cmd = rep.get("replay_cmd") or rep.get("cmd")
-    if cmd and cmd.startswith(ctx.bin_path("h_mup")):
+    cmd = rep.get("replay_cmd") or rep.get("cmd") or ""
+    if "h_mup h1" in cmd or cmd.endswith(" h1 %d" % rep.get("seed", -1)):
         ok_build, out = ctx.build_harness(BINS)
-        rc, h = h1(ctx)
-        print(json.dumps(h, indent=1))
-        oo = h.get("out-of-order")
-        return 1 if (oo and not oo["recovery"].startswith("OK:")) else 0
+        rc, h, hp = h1(ctx)
+        bad = [(r["line"], judge_h1(r)) for r in h if judge_h1(r)]
+        print("failing patterns: %d of %d" % (len(bad), len(h)))
+        for l, p in bad[:5]:
+            print(" ", p, "|", l)
+        return 1 if bad else 0
     return 0
